@@ -290,4 +290,303 @@ theorem countYX_nonneg (tm : Option Rat) (xs ys : List Ev) : 0 ≤ countYX tm xs
   have h3 : (0 : Rat) ≤ (dblyx tm xs ys : Rat) := Rat.natCast_le_natCast.2 (Nat.zero_le _)
   grind
 
+
+/-! ### event coincidence analysis -/
+
+theorem div_range (c d : Rat) (h : 0 < d) (h1 : 0 ≤ c) (h2 : c ≤ d) : 0 ≤ c / d ∧ c / d ≤ 1 := by
+  have hi : 0 < d⁻¹ := Rat.inv_pos.2 h
+  have e : c / d = d⁻¹ * c := by rw [Rat.div_def, Rat.mul_comm]
+  have e1 : d⁻¹ * d = 1 := by rw [Rat.mul_comm]; exact Rat.mul_inv_cancel d (by grind)
+  have a := Rat.mul_nonneg (Rat.le_of_lt hi) h1
+  have b := Rat.mul_le_mul_of_nonneg_left h2 (Rat.le_of_lt hi)
+  grind
+
+/-- a count over a slice of length `max d 0`, divided by `d ≠ 0`, lies in `[0,1]` -/
+theorem rate_range (c : Nat) (d : Int) (r : Rat) (h : rate c d = .val r)
+    (hc : (c : Int) ≤ max d 0) : 0 ≤ r ∧ r ≤ 1 := by
+  unfold rate at h
+  split at h
+  · cases h
+  · rename_i hd
+    injection h with h
+    subst h
+    by_cases hneg : d < 0
+    · have : c = 0 := by omega
+      subst this
+      have e : ((0 : Nat) : Rat) / (d : Rat) = 0 := by simp [Rat.div_def, Rat.zero_mul]
+      rw [e]
+      exact ⟨by grind, by grind⟩
+    · have hpos : (0 : Int) < d := by omega
+      have h1 : ((0 : Int) : Rat) < (d : Rat) := Rat.intCast_lt_intCast.2 hpos
+      have h2 : (((c : Nat) : Int) : Rat) ≤ (d : Rat) := Rat.intCast_le_intCast.2 (by omega)
+      rw [Rat.intCast_natCast] at h2
+      have h3 : (0 : Rat) ≤ (c : Rat) := Rat.natCast_le_natCast.2 (Nat.zero_le _)
+      exact div_range _ _ (by simpa using h1) h3 h2
+
+theorem nStart_le (e : List Rat) (c : Rat) : nStart e c ≤ e.length := by
+  unfold nStart
+  split
+  · exact List.countP_le_length
+  · omega
+
+theorem nEnd_le (e : List Rat) (c : Rat) : nEnd e c ≤ e.length := by
+  unfold nEnd
+  split
+  · exact List.countP_le_length
+  · omega
+
+theorem prec_le (win : Rat → Bool) (lag : Rat) (as bs : List Rat) :
+    prec win lag as bs ≤ as.length := List.countP_le_length
+theorem trig_le (win : Rat → Bool) (lag : Rat) (as bs : List Rat) :
+    trig win lag as bs ≤ bs.length := List.countP_le_length
+
+theorem nStart_shift (e : List Rat) (c x : Rat) : nStart (e.map (· + c)) x = nStart e x := by
+  unfold nStart
+  rw [List.head?_map]
+  cases e.head? with
+  | none => rfl
+  | some a =>
+    simp only [Option.map, List.countP_map]
+    congr 1
+    funext u
+    simp only [Function.comp_def]
+    have : (u + c ≤ a + c + x) ↔ (u ≤ a + x) := by grind
+    simp only [this]
+
+theorem nEnd_shift (e : List Rat) (c x : Rat) : nEnd (e.map (· + c)) x = nEnd e x := by
+  unfold nEnd
+  rw [List.getLast?_map]
+  cases e.getLast? with
+  | none => rfl
+  | some a =>
+    simp only [Option.map, List.countP_map]
+    congr 1
+    funext u
+    simp only [Function.comp_def]
+    have : (a + c - x ≤ u + c) ↔ (a - x ≤ u) := by grind
+    simp only [this]
+
+theorem prec_shift (win : Rat → Bool) (lag c : Rat) (as bs : List Rat) :
+    prec win lag (as.map (· + c)) (bs.map (· + c)) = prec win lag as bs := by
+  simp only [prec, List.countP_map, List.any_map]
+  congr 1
+  funext a
+  simp only [Function.comp_def]
+  congr 1
+  funext b
+  have : a + c - (b + c) - lag = a - b - lag := by grind
+  rw [this]
+
+theorem trig_shift (win : Rat → Bool) (lag c : Rat) (as bs : List Rat) :
+    trig win lag (as.map (· + c)) (bs.map (· + c)) = trig win lag as bs := by
+  simp only [trig, List.countP_map, List.any_map]
+  congr 1
+  funext b
+  simp only [Function.comp_def]
+  congr 1
+  funext a
+  have : a + c - (b + c) - lag = a - b - lag := by grind
+  rw [this]
+
+
+/-! ### at most one partner: the upper bound of event synchronisation -/
+
+/-- two inner events of one strictly increasing series: ordered, and at least as far
+apart as either one's smallest neighbouring gap -/
+def Sep (e e' : Ev) : Prop := e.1 < e'.1 ∧ e.2 ≤ e'.1 - e.1 ∧ e'.2 ≤ e'.1 - e.1
+
+theorem innerEv_head_facts (h c : Rat) (t : List Rat) (hs : List.Pairwise (· < ·) (h :: c :: t)) :
+    ∀ e ∈ innerEv (h :: c :: t), h < e.1 ∧ e.2 ≤ e.1 - h ∧ c ≤ e.1 := by
+  induction t generalizing h c with
+  | nil => intro e he; simp [innerEv] at he
+  | cons d t ih =>
+    intro e he
+    have hhc : h < c := by
+      have := List.rel_of_pairwise_cons hs (a' := c) (by simp)
+      exact this
+    have hs' : List.Pairwise (· < ·) (c :: d :: t) := (List.pairwise_cons.1 hs).2
+    simp only [innerEv, List.mem_cons] at he
+    rcases he with he | he
+    · subst he
+      refine ⟨hhc, ?_, Rat.le_refl⟩
+      simp only
+      grind
+    · have := ih c d hs' e he
+      grind
+
+theorem innerEv_sep (l : List Rat) (hs : List.Pairwise (· < ·) l) :
+    List.Pairwise Sep (innerEv l) := by
+  fun_induction innerEv l with
+  | case1 a b c t ih =>
+    have hs' : List.Pairwise (· < ·) (b :: c :: t) := (List.pairwise_cons.1 hs).2
+    rw [List.pairwise_cons]
+    refine ⟨?_, ih hs'⟩
+    intro e he
+    have := innerEv_head_facts b c t hs' e he
+    simp only [Sep]
+    grind
+  | case2 l h =>
+    match l, h with
+    | [], _ => simp [innerEv]
+    | [a], _ => simp [innerEv]
+    | [a, b], _ => simp [innerEv]
+    | a :: b :: c :: t, h => exact absurd rfl (h a b c t)
+
+theorem capTau_le (tm : Option Rat) (t : Rat) : capTau tm t ≤ t := by
+  cases tm with
+  | none => exact Rat.le_refl
+  | some m => simp only [capTau]; grind
+
+theorem tau2_le_left (tm : Option Rat) (p q : Ev) : tau2 tm p q ≤ p.2 := by
+  have := capTau_le tm (min p.2 q.2)
+  simp only [tau2]; grind
+theorem tau2_le_right (tm : Option Rat) (p q : Ev) : tau2 tm p q ≤ q.2 := by
+  have := capTau_le tm (min p.2 q.2)
+  simp only [tau2]; grind
+
+/-- `x` is counted for the pair `(p, q)`: strictly after within the delay, or simultaneous -/
+def hit (tm : Option Rat) (p q : Ev) : Bool := axy tm p q || eqt p q
+
+theorem hit_row_unique (tm : Option Rat) (p q q' : Ev) (hs : Sep q q') :
+    ¬(hit tm p q = true ∧ hit tm p q' = true) := by
+  have a1 := tau2_le_right tm p q
+  have a2 := tau2_le_right tm p q'
+  simp only [hit, axy, eqt, dst2, Bool.or_eq_true, Bool.and_eq_true, decide_eq_true_eq]
+  simp only [Sep] at hs
+  grind
+
+theorem hit_col_unique (tm : Option Rat) (q p p' : Ev) (hs : Sep p p') :
+    ¬(hit tm p q = true ∧ hit tm p' q = true) := by
+  have a1 := tau2_le_left tm p q
+  have a2 := tau2_le_left tm p' q
+  simp only [hit, axy, eqt, dst2, Bool.or_eq_true, Bool.and_eq_true, decide_eq_true_eq]
+  simp only [Sep] at hs
+  grind
+
+theorem countP_le_one {α} (P : α → Bool) (l : List α)
+    (h : List.Pairwise (fun a b => ¬(P a = true ∧ P b = true)) l) : l.countP P ≤ 1 := by
+  induction l with
+  | nil => simp
+  | cons a t ih =>
+    rw [List.pairwise_cons] at h
+    rw [List.countP_cons]
+    by_cases ha : P a = true
+    · have : t.countP P = 0 := by
+        rw [List.countP_eq_zero]
+        intro b hb hPb
+        exact h.1 b hb ⟨ha, hPb⟩
+      simp [this, ha]
+    · have := ih h.2
+      simp [ha]; exact this
+
+theorem count2_hit_le_left (tm : Option Rat) (xs ys : List Ev) (hy : List.Pairwise Sep ys) :
+    count2 (hit tm) xs ys ≤ xs.length := by
+  induction xs with
+  | nil => simp [count2]
+  | cons p t ih =>
+    rw [count2_cons_left]
+    have : ys.countP (hit tm p) ≤ 1 :=
+      countP_le_one _ _ (hy.imp (fun {q q'} hs => hit_row_unique tm p q q' hs))
+    simp only [List.length_cons]
+    omega
+
+theorem count2_hit_le_right (tm : Option Rat) (xs ys : List Ev) (hx : List.Pairwise Sep xs) :
+    count2 (hit tm) xs ys ≤ ys.length := by
+  rw [← count2_swap]
+  induction ys with
+  | nil => simp [count2]
+  | cons q t ih =>
+    rw [count2_cons_left]
+    have : xs.countP (fun p => hit tm p q) ≤ 1 :=
+      countP_le_one _ _ (hx.imp (fun {p p'} hs => hit_col_unique tm q p p' hs))
+    simp only [List.length_cons]
+    omega
+
+theorem countP_add_disjoint {α} (f g : α → Bool) (l : List α)
+    (h : ∀ a, ¬(f a = true ∧ g a = true)) :
+    l.countP f + l.countP g = l.countP (fun a => f a || g a) := by
+  induction l with
+  | nil => simp
+  | cons a t ih =>
+    simp only [List.countP_cons]
+    have := h a
+    cases hf : f a <;> cases hg : g a <;> simp [hf, hg] at this ⊢ <;> omega
+
+theorem count2_add_disjoint (f g : Ev → Ev → Bool) (xs ys : List Ev)
+    (h : ∀ p q, ¬(f p q = true ∧ g p q = true)) :
+    count2 f xs ys + count2 g xs ys = count2 (fun p q => f p q || g p q) xs ys := by
+  induction xs with
+  | nil => simp [count2]
+  | cons p t ih =>
+    simp only [count2_cons_left]
+    have := countP_add_disjoint (f p) (g p) ys (h p)
+    omega
+
+theorem axy_eqt_disjoint (tm : Option Rat) (p q : Ev) :
+    ¬(axy tm p q = true ∧ eqt p q = true) := by
+  simp only [axy, eqt, Bool.and_eq_true, decide_eq_true_eq]
+  grind
+
+/-- the count of one direction is at most the number of inner events of either series -/
+theorem countXY_le (tm : Option Rat) (xs ys : List Ev) (hx : List.Pairwise Sep xs)
+    (hy : List.Pairwise Sep ys) :
+    countXY tm xs ys ≤ (xs.length : Rat) ∧ countXY tm xs ys ≤ (ys.length : Rat) := by
+  have hsum := count2_add_disjoint (axy tm) eqt xs ys (axy_eqt_disjoint tm)
+  have h1 := count2_hit_le_left tm xs ys hy
+  have h2 := count2_hit_le_right tm xs ys hx
+  have e : count2 (fun p q => axy tm p q || eqt p q) xs ys = count2 (hit tm) xs ys := rfl
+  rw [e] at hsum
+  have c1 : ((count2 (axy tm) xs ys + count2 eqt xs ys : Nat) : Rat) ≤ (xs.length : Rat) :=
+    Rat.natCast_le_natCast.2 (by omega)
+  have c2 : ((count2 (axy tm) xs ys + count2 eqt xs ys : Nat) : Rat) ≤ (ys.length : Rat) :=
+    Rat.natCast_le_natCast.2 (by omega)
+  rw [Rat.natCast_add] at c1 c2
+  have n1 : (0 : Rat) ≤ (count2 eqt xs ys : Rat) := Rat.natCast_le_natCast.2 (Nat.zero_le _)
+  have n2 : (0 : Rat) ≤ (dblxy tm xs ys : Rat) := Rat.natCast_le_natCast.2 (Nat.zero_le _)
+  unfold countXY
+  constructor <;> grind
+
+theorem sq_le_mul (a m1 m2 : Rat) (h0 : 0 ≤ a) (h1 : a ≤ m1) (h2 : a ≤ m2) :
+    a * a ≤ m1 * m2 := by
+  have s1 := Rat.mul_le_mul_of_nonneg_left h2 h0
+  have s2 := Rat.mul_le_mul_of_nonneg_right h1 (Rat.le_trans h0 h2)
+  exact Rat.le_trans s1 s2
+
+
+/-! ### boundary-event exclusion: slicing by a count = excluding by time -/
+
+theorem countP_le_sorted_zero (x a : Rat) (t : List Rat) (hs : List.Pairwise (· < ·) (a :: t))
+    (ha : ¬ a ≤ x) : t.countP (fun u => decide (u ≤ x)) = 0 := by
+  rw [List.countP_eq_zero]
+  intro u hu
+  have := List.rel_of_pairwise_cons hs hu
+  simp only [decide_eq_true_eq]
+  grind
+
+theorem filter_gt_sorted_all (x a : Rat) (t : List Rat) (hs : List.Pairwise (· < ·) (a :: t))
+    (ha : ¬ a ≤ x) : t.filter (fun u => decide (¬ u ≤ x)) = t := by
+  rw [List.filter_eq_self]
+  intro u hu
+  have := List.rel_of_pairwise_cons hs hu
+  simp only [decide_eq_true_eq]
+  grind
+
+/-- on a strictly increasing series, dropping as many leading events as there are
+events `≤ x` removes exactly the events `≤ x` -/
+theorem drop_countP_le_sorted (x : Rat) (e : List Rat) (hs : List.Pairwise (· < ·) e) :
+    e.drop (e.countP fun u => decide (u ≤ x)) = e.filter fun u => decide (¬ u ≤ x) := by
+  induction e with
+  | nil => rfl
+  | cons a t ih =>
+    have hs' := (List.pairwise_cons.1 hs).2
+    by_cases ha : a ≤ x
+    · simp only [List.countP_cons, ha, decide_true, if_true, List.drop_succ_cons,
+        List.filter_cons, not_true_eq_false, decide_false]
+      exact ih hs'
+    · have h0 := countP_le_sorted_zero x a t hs ha
+      have hf := filter_gt_sorted_all x a t hs ha
+      simp only [List.countP_cons, ha, decide_false, h0, List.filter_cons, not_false_eq_true,
+        decide_true, if_true, hf]
+      simp
+
 end Pyunicorn.Events
